@@ -8,8 +8,8 @@ package harness
 //	configurations in which a blocked send can matter - and for the
 //	plain Close program with every consumer.
 //
-// thorough: bound 2 on the whole product, bound 3 on the consumer-less part (with
-// state-key pruning), then an unbounded pruned pass with a time budget per scenario.
+// thorough: bound 2 on the whole product (with state-key pruning), then an
+// unbounded pruned pass with a time budget per scenario.
 func ctlJobs(tier string) []Job {
 	var jobs []Job
 	caps := []int{-1, 1, 4}
@@ -23,20 +23,16 @@ func ctlJobs(tier string) []Job {
 				for _, capa := range caps {
 					small := cons == "none" || (c == "close" && (cons == "events" || cons == "errors"))
 					if tier == "thorough" {
-						// bound 2 everywhere, 3 where nothing (or one channel with a plain Close) is consumed; revisits of
-						// a global state with no fewer preemptions are cut (state-key pruning: the oracles of C05/C06/C13
-						// are end-state and per-thread, which is what the key preserves)
-						b := 2
-						if small {
-							b = 3
-						}
-						jobs = append(jobs, Job{Family: "ctl", Bound: b, Prune: true,
+						// bound 2 everywhere; revisits of a global state with no fewer preemptions are cut (state-key
+						// pruning: the oracles of C05/C06/C13 are end-state and per-thread, which is what the key preserves)
+						jobs = append(jobs, Job{Family: "ctl", Bound: 2, Prune: true,
 							Params: map[string]any{"hist": h, "ctl": c, "cons": cons, "cap": capa}})
-						// then, as far as the time allows: no preemption bound at all
-						if capa == -1 && cons != "errors" && cons != "both-stop2" {
-							jobs = append(jobs, Job{Family: "ctl", Bound: -1, Prune: true, Deepening: true, MaxSeconds: 10,
+						// then, as far as the time allows: no preemption bound at all (default capacity)
+						if capa == -1 {
+							jobs = append(jobs, Job{Family: "ctl", Bound: -1, Prune: true, Deepening: true, MaxSeconds: 8,
 								Params: map[string]any{"hist": h, "ctl": c, "cons": cons, "cap": capa}})
 						}
+						_ = small
 						continue
 					}
 					if c != "close" && (capa == 4 || capa == 1 && cons != "none" || cons == "both-stop2") {
